@@ -483,7 +483,7 @@ const (
 	solveC = 400.0  // Solve family, square systems: |err| <= solveC*n*u*kappa*max|x|
 	lsqC   = 4000.0 // Solve family, least squares: |err| <= lsqC*max(m,n)*u*kappa_2^2*max(|x|, |b|/sigma_min)
 	detC   = 400.0  // Det/LogDet
-	condC  = 2000.0 // Cond (norm 2)
+	condC  = 4000.0 // Cond (norm 2)
 )
 
 // solveModel is shared by Solve, SolveVec and the SolveTo family: operand 0
